@@ -98,6 +98,8 @@ class DeviceConn:
                 try:
                     frames = self.rx_plain.feed(data)
                 except refcodec.DecodeError as e:
+                    for ty, payload in getattr(e, "frames", ()):
+                        self._on_frame(ty, payload)
                     self.decode_errors.append(f"plaintext: {e}")
                     self.sim.log("dev_decode_error", str(e))
                     return
@@ -161,6 +163,7 @@ class DeviceConn:
                                "name": m.name if m else None, "msg": None}
         if m is None:
             self.decode_errors.append(f"client sent undefined type id {ty}")
+            UNDECLARED_IDS_RECEIVED.append({"id": ty, "framing": "noise" if self.noise else "plain", "payload_bytes": len(payload), "t": self.sim.clock})
         else:
             msg = getattr(pb(), m.name)()
             try:
@@ -336,6 +339,8 @@ class DeviceConn:
         return [r["name"] or f"#{r['id']}" for r in self.received]
 
 
+# every frame a device decoded whose type number api.proto does not declare (process-wide; read by C13: whatever the client wrote, it went out under that number)
+UNDECLARED_IDS_RECEIVED: list[dict[str, Any]] = []
 ROTATE_FIRMWARE = False  # set by a check's shard(): the firmware flavour of default devices rotates (see SimDevice.__init__)
 AUTO_ROTATE = False      # set by a check's shard(): devices whose config leaves the chunking open get a policy by rotation
 _ROTATION = 0
